@@ -1,4 +1,5 @@
 import Juniper.Proofs.TreeHistory
+import Juniper.Proofs.TreeFacts
 /-!
 # Cursor navigation (C01 ranges, C02 iterators)
 
